@@ -710,3 +710,196 @@ def _peg_rules(body):
         else:
             i += 1
     return rules
+
+
+# --------------------------------------------------------------------------
+# family T: traversal completeness
+# --------------------------------------------------------------------------
+def enum_children(enum, rec_names):
+    """variant -> list of field ids whose type mentions one of rec_names (children of the recursive type)"""
+    out = {}
+    pat = re.compile(r"(?<![A-Za-z0-9_])(%s)(?![A-Za-z0-9_])" % "|".join(re.escape(x) for x in rec_names))
+    for v in enum["variants"]:
+        kids = []
+        for f in v["fields"]:
+            if pat.search(f["ty"]):
+                kids.append(f["name"])
+        out[v["name"]] = kids
+    return out
+
+
+def pat_field_bindings(p):
+    """field id -> ('bind', name) | ('ignored', None) | ('nested', pat) for a constructor pattern; plus has_rest"""
+    out = {}
+    rest = False
+    k = p["k"]
+    if k == "PRef":
+        return pat_field_bindings(p["pat"])
+    if k == "Ident" and "sub" in p:
+        return pat_field_bindings(p["sub"])
+    if k == "PStruct":
+        rest = p["rest"]
+        for f in p["fields"]:
+            sub = f["pat"]
+            out[f["name"]] = _bind_of(sub)
+    elif k == "PTupleStruct":
+        for i, e in enumerate(p["elems"]):
+            if e["k"] == "Rest":
+                rest = True
+                continue
+            out[str(i)] = _bind_of(e)
+    return out, rest
+
+
+def _bind_of(sub):
+    if sub["k"] == "Ident" and "sub" not in sub:
+        return ("bind", sub["name"])
+    if sub["k"] == "Wild":
+        return ("ignored", None)
+    if sub["k"] == "PRef":
+        return _bind_of(sub["pat"])
+    return ("nested", sub)
+
+
+def uses_name(node, name):
+    for n in walk(node):
+        if n["k"] == "Path" and n["p"] == name:
+            return True
+        if n["k"] == "Macro" and "tokens" in n and _tok_has(n["tokens"], name):
+            return True
+        if n["k"] == "FieldInit" and n.get("short") and n["name"] == name:
+            return True
+    return False
+
+
+def _tok_has(toks, name):
+    for t in toks:
+        if t["t"] == "i" and t["v"] == name:
+            return True
+        if t["t"] == "g" and _tok_has(t["c"], name):
+            return True
+    return False
+
+
+def find_enum_match(fn, enum_name, variants, min_hits=2):
+    """the outermost match of a function whose arms name variants of the enum"""
+    best = None
+    for m in matches_in(fn["body"]):
+        hits = 0
+        for a in m["arms"]:
+            for alt in pat_alts(a["pat"]):
+                h = pat_head(alt)
+                if h and last(h) in variants and (("::" not in h) or h.split("::")[-2] in (enum_name, "Self")):
+                    hits += 1
+        if hits >= min_hits:
+            if best is None or m["s"][0] < best["s"][0]:
+                best = m
+            # outermost first in pre-order: stop at first
+            return m
+    return best
+
+
+def flows_to_recursion(body, name, rec_fns):
+    """does the bound child `name` reach a recursive call: as (part of) an argument / receiver of a call to one of rec_fns,
+    or as the source of an iterator chain one of whose closures (or function-path arguments) makes such a call"""
+
+    def is_rec(n):
+        if n["k"] == "Call" and n["f"]["k"] == "Path" and last(n["f"]["p"]) in rec_fns:
+            return True
+        if n["k"] == "MethodCall" and n["m"] in rec_fns:
+            return True
+        return False
+
+    def mentions_rec(n):
+        for x in walk(n):
+            if is_rec(x):
+                return True
+            if x["k"] == "Path" and last(x["p"]) in rec_fns:
+                return True  # function passed by path: .map(Self::walk)
+        return False
+
+    for n in walk(body):
+        if is_rec(n):
+            parts = list(n["args"]) + ([n["recv"]] if n["k"] == "MethodCall" else [])
+            if any(uses_name(a, name) for a in parts):
+                return True
+        if n["k"] == "MethodCall" and uses_name(n["recv"], name) and any(mentions_rec(a) for a in n["args"]):
+            return True
+        if n["k"] == "For" and uses_name(n["e"], name) and mentions_rec(n["body"]):
+            return True
+    # let-rebinding: let y = <expr using name>; then y flows
+    for n in walk(body):
+        if n["k"] == "Local" and "init" in n and n["pat"]["k"] == "Ident" and n["pat"]["name"] != name and uses_name(n["init"], name) and not mentions_rec(n["init"]):
+            if flows_to_recursion(body, n["pat"]["name"], rec_fns) if n["pat"]["name"] not in _FLOW_GUARD else False:
+                return True
+    return False
+
+
+_FLOW_GUARD = set()
+
+
+def traversal_check(rep, rid, sh, rel, qual, fn, enum, rec_names, exceptions=None, require_recursion=None, match=None):
+    """Family T. For every variant of `enum` with children of the recursive type: it must have an explicit arm in the
+    function's match that mentions every child; a catch-all that swallows it, or an arm that ignores a child, is a violation
+    unless (variant[, field]) is in `exceptions` {key: reason}."""
+    exceptions = exceptions or {}
+    variants = [v["name"] for v in enum["variants"]]
+    kids = enum_children(enum, rec_names)
+    m = match or find_enum_match(fn, enum["name"], set(variants))
+    if m is None:
+        raise AnchorMissing("match over %s in %s" % (enum["name"], qual))
+    rep.touched(rel, qual)
+    explicit = {}
+    catch = None
+    for a in m["arms"]:
+        for alt in pat_alts(a["pat"]):
+            h = pat_head(alt)
+            if h is None:
+                # a guarded catch-all does not swallow everything; only count unguarded ones
+                if "guard" not in a:
+                    catch = a
+            elif last(h) in variants:
+                explicit.setdefault(last(h), []).append((a, alt))
+    for v in variants:
+        key = "%s#%s" % (qual, v)
+        if not kids[v]:
+            if v in explicit or catch is not None:
+                rep.ok(rid, key, sh.loc(rel, (explicit[v][0][0] if v in explicit else catch)), why="leaf constructor", nontrivial=False)
+            else:
+                rep.bad(rid, key + "#unhandled", sh.loc(rel, m), "%s::%s is not handled" % (enum["name"], v))
+            continue
+        if v not in explicit or all("guard" in a for a, _ in explicit[v]) and catch is not None and False:
+            if v in exceptions:
+                rep.ok(rid, key, sh.loc(rel, catch or m), why="reviewed: " + exceptions[v])
+            elif catch is not None:
+                rep.bad(rid, key + "#swallowed", sh.loc(rel, catch), "the catch-all arm of %s swallows %s::%s, which has sub-terms %s: the walk does not visit them" % (qual, enum["name"], v, kids[v]), sample={"fn": qual, "variant": v, "children": kids[v]})
+            else:
+                rep.bad(rid, key + "#unhandled", sh.loc(rel, m), "%s::%s is not handled by %s" % (enum["name"], v, qual))
+            continue
+        # explicit arm(s): every child must be bound and mentioned in some arm for this variant
+        problems = []
+        for a, alt in explicit[v]:
+            fb, rest = pat_field_bindings(alt) if alt["k"] in ("PStruct", "PTupleStruct", "PRef", "Ident") else ({}, True)
+            for kid in kids[v]:
+                ek = "%s.%s" % (v, kid)
+                b = fb.get(kid)
+                if b is None:
+                    if ek not in exceptions:
+                        problems.append("child `%s` is not bound (`..`): the arm at line %d cannot visit it" % (kid, a["s"][0]))
+                elif b[0] == "ignored":
+                    if ek not in exceptions:
+                        problems.append("child `%s` is discarded with `_` (line %d)" % (kid, a["s"][0]))
+                elif b[0] == "bind":
+                    if not uses_name(a["body"], b[1]) and not ("guard" in a and uses_name(a["guard"], b[1])):
+                        if ek not in exceptions:
+                            problems.append("child `%s` is bound as `%s` but never used in the arm (line %d)" % (kid, b[1], a["s"][0]))
+                    elif require_recursion and not flows_to_recursion(a["body"], b[1], require_recursion):
+                        if ek not in exceptions:
+                            problems.append("child `%s` (bound as `%s`) never reaches a recursive call to %s (line %d): the sub-term is copied or dropped instead of walked" % (kid, b[1], "/".join(sorted(require_recursion)), a["s"][0]))
+            # only the first arm that could take the variant unguarded decides; guarded arms fall through
+            if "guard" not in a:
+                break
+        if problems:
+            rep.bad(rid, key + "#child-dropped", sh.loc(rel, explicit[v][0][0]), "; ".join(problems), sample={"fn": qual, "variant": v, "children": kids[v]})
+        else:
+            rep.ok(rid, key, sh.loc(rel, explicit[v][0][0]), sample={"fn": qual, "variant": v, "children_visited": kids[v]})
